@@ -39,8 +39,9 @@ PROP = {'rule': 'rapid state machine, one unit per combination of EnableRuntimeQ
                  'a bound pod whose reservation was rolled back after the binding was visible (late bind error) is charged nowhere until its next pod event: '
                  'in the model it holds no assignment from the roll-back to that event (the scheduler-side truth; koordinator repairs the state with '
                  'the next pod update, which the +pod-updates units deliver), is never scheduled again, and when the update charges it again its quota '
-                 'path leaves the used <= max claim (no admission was passed); status updates are not delivered to pods still parked in the default '
-                 'quota; quota delete / re-create around running pods is not generated (the webhook refuses deleting a quota that labelled pods name)',
+                 'path leaves the used <= max claim (no admission was passed); in the +pod-updates units status updates are not delivered to pods still parked in the default '
+                 'quota, the two +parked-pod-updates units lift that: an update inside the migration window moves the pod to its own quota and the '
+                 'model moves whatever the pod holds (reservation or binding) with it; quota delete / re-create around running pods is not generated (the webhook refuses deleting a quota that labelled pods name)',
                  'Go map iteration inside koordinator (runtime redistribution) is not controlled by the seed'],
  'units': [{'name': 'plugin',
             'pkg': 'pkg/scheduler/plugins/elasticquota',
@@ -52,7 +53,9 @@ PROP = {'rule': 'rapid state machine, one unit per combination of EnableRuntimeQ
                       {'run': 'TestVerifC03PodUpdatesRuntimeOnParentOn', 'quick': 1500, 'thorough': 1000, 'steps': 70},
                       {'run': 'TestVerifC03PodUpdatesRuntimeOffParentOff', 'quick': 1500, 'thorough': 1000, 'steps': 70},
                       {'run': 'TestVerifC03PodUpdatesRuntimeOnParentOff', 'quick': 1500, 'thorough': 1000, 'steps': 70},
-                      {'run': 'TestVerifC03PodUpdatesRuntimeOffParentOn', 'quick': 1500, 'thorough': 1000, 'steps': 70}]}],
+                      {'run': 'TestVerifC03PodUpdatesRuntimeOffParentOn', 'quick': 1500, 'thorough': 1000, 'steps': 70},
+                      {'run': 'TestVerifC03ParkedPodUpdatesRuntimeOnParentOn', 'quick': 1500, 'thorough': 1000, 'steps': 70},
+                      {'run': 'TestVerifC03ParkedPodUpdatesRuntimeOffParentOff', 'quick': 1500, 'thorough': 1000, 'steps': 70}]}],
  'manifest': {'technique': 'property-based testing (rapid): model-based state machine over the closed loop pod add -> PreFilter -> Reserve -> '
                            'bind/Unreserve -> delete with quota and capacity changes, per-attempt decision oracle + history invariant',
               'text': 'Generated-history search over the real ElasticQuota plugin for each of the four runtime-quota x check-parent settings. A '
